@@ -278,10 +278,13 @@ fn decode_bindings(bindings: Bindings, database: &SparqlDatabase) -> Vec<StringB
 
 fn finalize_select(mut rows: Vec<StringBinding>, query: &SelectQuery<'_>) -> Vec<Vec<String>> {
     let columns = projection_columns(query);
-    if query
-        .variables
-        .iter()
-        .any(|(kind, _, _)| *kind != "VAR" && *kind != "*")
+    // GROUP BY groups the solutions whether or not an aggregate is projected
+    // (one row per group), exactly as the sub-select path does.
+    if !query.group_vars.is_empty()
+        || query
+            .variables
+            .iter()
+            .any(|(kind, _, _)| *kind != "VAR" && *kind != "*")
     {
         rows = aggregate_rows(rows, query);
     }
